@@ -635,8 +635,10 @@ def _norm_native(v):
         return ('bytesio', v.getvalue(), v.tell())
     if isinstance(v, bytearray):
         return ('bytearray', bytes(v))
-    if isinstance(v, (list, tuple)):
-        return type(v)(_norm_native(x) for x in v)
+    if isinstance(v, list):
+        return [_norm_native(x) for x in v]
+    if isinstance(v, tuple):
+        return tuple(_norm_native(x) for x in v)       # also Point / Generator (tuple subclasses): their coordinates
     if isinstance(v, dict):
         return {k: _norm_native(x) for k, x in v.items()}
     if isinstance(v, (int, bool, bytes, str, type(None), float)):
